@@ -247,6 +247,23 @@ def r2_ctor_todict_parity(ctx):
                     if reads and any(x != kw_.arg for x in reads):
                         ok = False
             ctx.check(ok, cq + "#from_dict", "from_dict binds every key to the like-named parameter" if ok else "from_dict binds a key to a differently named parameter", where=fdm, node=rets[0] if rets else fdm.node)
+            # ... and hands the stored value over AS STORED (decided per path): only re-packing (tuple / list /
+            # float / unpacking in order) - nothing that can change a valid value (min / max / sorted / abs /
+            # round / clip / arithmetic), otherwise a saved detector does not load equal to itself
+            from sa.paths import enumerate_paths
+
+            CHANGING = {"min", "max", "sorted", "reversed", "abs", "round", "clip", "sort", "floor", "ceil", "int", "fabs", "absolute", "minimum", "maximum", "around", "rint", "trunc"}
+            bad = None
+            for q_ in enumerate_paths(fdm.node.body):
+                if q_.exit != "return" or not isinstance(q_.value, ast.Call):
+                    continue
+                for kw_ in q_.value.keywords:
+                    if kw_.arg is None:
+                        continue
+                    for x in ast.walk(kw_.value):
+                        if (isinstance(x, ast.Call) and call_name(x).split(".")[-1] in CHANGING) or isinstance(x, (ast.BinOp, ast.UnaryOp)):
+                            bad = (kw_.arg, kw_.value)
+            ctx.check(bad is None, cq + "#from_dict-as-stored", "stored values are handed to the constructor as stored" if bad is None else f"from_dict rebuilds '{bad[0]}' as `{norm(bad[1])[:70]}`: a valid stored value can come back changed (save -> load is not the identity)", where=fdm, node=fdm.node)
     ctx.floor(n, 4)
     geo = ctx.cls("pyxel.detectors.geometry:Geometry")
     for sub in ctx.repo.subclasses(geo):
